@@ -399,7 +399,7 @@ func StrictFloatLaxEqual[T StrictFloat](left T, right Value) bool {
 		case *BigInt:
 			return EqBigIntFloat64(r.ToGoBigInt(), float64(left))
 		case *BigFloat:
-			if r.IsNaN() {
+			if r.IsNaN() || left != left {
 				return false
 			}
 			iBigFloat := (&big.Float{}).SetFloat64(float64(left))
